@@ -42,6 +42,7 @@ func stlRead(n int, c stlCase, ignore bool) stlEvent {
 	ev := stlEvent{N: n, Dir: "read", Ignore: ignore, G: c.G, D: c.D}
 	ev.Post.Norm()
 	raw := stlx.Pack(c.D)
+	dumpDoc("stl", n, raw)
 	var s *astisub.Subtitles
 	var err error
 	ev.Res, ev.Msg = run.Guard(10*time.Second, func() {
